@@ -199,6 +199,8 @@ def run_property(prop, tier, harnesses, level, explanation, assumptions, outside
     deadline = quick_deadline if tier == "quick" else thorough_deadline
     if tier != "quick":
         for h in harnesses:
+            if getattr(h, "no_anfcheck", False):
+                continue  # the z3 re-check of this harness' GF(2) verdicts does not finish (stated in its description)
             if "-anfcheck" not in h.flags:
                 h.flags = h.flags + ["-anfcheck"]
     results = []
